@@ -654,7 +654,8 @@ def replace_reals(T, got, want):
 def cfg(tier, **over):
     q = dict(kinds=ALL_SCALARS, tagnums=[0, 31], classes=[2], maxstack=1, shapes=ALL_SHAPES, pool=1,
              modes=['der', 'cer'])
-    t = dict(q, tagnums=[0, 30, 31, 128, 2 ** 32], classes=[1, 2, 3], pool=2)
+    # thorough: three types per pool position, tag stacks of depth 2 over {0, 31, 128} x {APPLICATION, CONTEXT} x {implicit, explicit}
+    t = dict(q, tagnums=[0, 31, 128], classes=[1, 2], maxstack=2, pool=3)
     c = dict(q if tier == 'quick' else t)
     c.update(over.get(tier, {}))
     c.update({k: v for k, v in over.items() if k not in ('quick', 'thorough')})
@@ -664,24 +665,25 @@ def cfg(tier, **over):
 PROPS = {
     'C01': dict(plan=plan_c01, clauses={'EncRefused', 'Rejected', 'NotAValue', 'ValueDiffers', 'RestDiffers', 'Crash'},
                 cfg=lambda tier: cfg(tier, modes=['der'], quick=dict(tagnums=[0, 31, 128], classes=[1, 2]),
-                                     thorough=dict(tagnums=[0, 30, 31, 128, 2 ** 32], maxstack=1)), sizes=True),
+                                     thorough=dict(tagnums=[0, 31, 128], classes=[1, 2], maxstack=2, pool=2)), sizes=True),
     'C02': dict(plan=plan_c02, clauses={'EncRefused', 'Rejected', 'NotAValue', 'ValueDiffers', 'RestDiffers', 'Crash', 'Disagree'},
                 cfg=lambda tier: cfg(tier, modes=['der', 'cer']), sizes=True),
     'C03': dict(plan=plan_c03, clauses={'EncRefused', 'DerIdentity', 'CerCanonical', 'RefReads', 'OneTLV', 'Headers'},
                 cfg=lambda tier: cfg(tier, modes=['der', 'cer'],
                                      quick=dict(tagnums=[0, 30, 31, 127, 128, 16383, 16384, 2 ** 32], classes=[1, 2, 3]),
-                                     thorough=dict(tagnums=[0, 1, 30, 31, 127, 128, 16383, 16384, 2 ** 32, 2 ** 64], classes=[1, 2, 3], pool=3)),
+                                     thorough=dict(tagnums=[0, 1, 30, 31, 127, 128, 16383, 16384, 2 ** 32, 2 ** 64], classes=[1, 2, 3], pool=3, maxstack=1)),
                 sizes=True),
     'C06': dict(plan=plan_c06, clauses={'NotUnderrun', 'Crash'},
                 cfg=lambda tier: cfg(tier, modes=['der', 'cer', 'ber_indef', 'ber_indef_c1', 'v_indefdef', 'v_long'],
                                      quick=dict(kinds=['bool', 'int', 'bits', 'octs', 'null', 'oid', 'real', 'utf8', 'enum'],
                                                 shapes=['scalar', 'any', 'seqof', 'setof', 'choice', 'deep']),
-                                     thorough=dict(pool=1, cuts=True)), sizes=False),
+                                     thorough=dict(pool=1, cuts=True, maxstack=1, tagnums=[0, 30, 31, 128, 2 ** 32], classes=[1, 2, 3])), sizes=False),
     'C07': dict(plan=plan_c07, clauses={'Rejected', 'NotAValue', 'ValueDiffers', 'RestDiffers', 'Crash', 'OneTLV'},
                 cfg=lambda tier: cfg(tier, modes=['ber_indef', 'v_indefdef', 'v_nestindef'],
                                      quick=dict(shapes=['scalar', 'any', 'seqof', 'setof', 'choice', 'deep'])), sizes=False),
     'C09': dict(plan=plan_c09, clauses={'Rejected', 'NotAValue', 'ValueDiffers', 'RestDiffers', 'Crash'},
-                cfg=lambda tier: cfg(tier, modes=['der', 'cer'] + BER_LIB_MODES + VARIANT_MODES), sizes=False),
+                cfg=lambda tier: cfg(tier, modes=['der', 'cer'] + BER_LIB_MODES + VARIANT_MODES,
+                                     thorough=dict(maxstack=1, tagnums=[0, 30, 31, 128, 2 ** 32], classes=[1, 2, 3], pool=3)), sizes=False),
     'C13': dict(plan=plan_c13, clauses={'TagSetDiffers', 'ExplicitUniversal', 'Headers', 'Rejected', 'Accepted', 'Crash',
                                         'EncRefused'},
                 cfg=lambda tier: cfg(tier, modes=['der'],
@@ -695,7 +697,8 @@ PROPS = {
     'C04': dict(plan=plan_c04, clauses={'EncodableDependsOnHistory', 'DerDependsOnHistory', 'CerDependsOnHistory', 'Disagree',
                                         'DerNotTheCanonicalBytes'},
                 cfg=lambda tier: cfg(tier, modes=['der', 'ber_indef', 'ber_def_c1', 'v_long', 'v_indefdef', 'v_perm', 'v_emitdef', 'v_true7f'],
-                                     quick=dict(kinds=['bool', 'int', 'bits', 'octs', 'oid', 'real', 'utf8', 'enum', 'null'])), sizes=False),
+                                     quick=dict(kinds=['bool', 'int', 'bits', 'octs', 'oid', 'real', 'utf8', 'enum', 'null']),
+                                     thorough=dict(maxstack=1, tagnums=[0, 30, 31, 128, 2 ** 32], classes=[1, 2, 3], pool=3)), sizes=False),
     'C17': dict(plan=plan_c17, clauses={'EncRefused', 'Rejected', 'NotAValue', 'ValueDiffers', 'Crash', 'Disagree'},
                 cfg=lambda tier: cfg(tier, modes=['der']), sizes=False),
     'C16': dict(plan=plan_c16, clauses={'Rejected', 'NotAValue', 'ReencodeRefused', 'ReencodeDiffers', 'LeavesDiffer',
